@@ -227,3 +227,75 @@ func RIPEMD160Reader(r io.Reader) ([20]byte, error) {
 	err := mdStream(r, func(b []byte) { rmdCompress(&h, b) })
 	return rmdOut(h), err
 }
+
+// MDStream is an incremental form of the two references for messages that do
+// not fit in memory: Write absorbs bytes, Sum returns the digest of everything
+// written so far without disturbing the running state.
+type MDStream struct {
+	rmd   bool
+	h4    [4]uint32
+	h5    [5]uint32
+	buf   []byte
+	total uint64
+}
+
+func NewMD4Stream() *MDStream {
+	return &MDStream{h4: [4]uint32{0x67452301, 0xefcdab89, 0x98badcfe, 0x10325476}}
+}
+
+func NewRIPEMD160Stream() *MDStream {
+	return &MDStream{rmd: true, h5: [5]uint32{0x67452301, 0xefcdab89, 0x98badcfe, 0x10325476, 0xc3d2e1f0}}
+}
+
+func (s *MDStream) compress(b []byte) {
+	if s.rmd {
+		rmdCompress(&s.h5, b)
+	} else {
+		md4Compress(&s.h4, b)
+	}
+}
+
+func (s *MDStream) Write(p []byte) {
+	s.total += uint64(len(p))
+	if len(s.buf) > 0 {
+		n := 64 - len(s.buf)
+		if n > len(p) {
+			n = len(p)
+		}
+		s.buf = append(s.buf, p[:n]...)
+		p = p[n:]
+		if len(s.buf) < 64 {
+			return
+		}
+		s.compress(s.buf)
+		s.buf = s.buf[:0]
+	}
+	for len(p) >= 64 {
+		s.compress(p[:64])
+		p = p[64:]
+	}
+	s.buf = append(s.buf, p...)
+}
+
+// Sum pads a copy of the state: 0x80, zeros to 56 mod 64, then the total bit
+// length as a 64-bit little-endian integer.
+func (s *MDStream) Sum() []byte {
+	c := *s
+	tail := append([]byte{}, s.buf...)
+	tail = append(tail, 0x80)
+	for len(tail)%64 != 56 {
+		tail = append(tail, 0)
+	}
+	var l [8]byte
+	binary.LittleEndian.PutUint64(l[:], s.total*8)
+	tail = append(tail, l[:]...)
+	for off := 0; off < len(tail); off += 64 {
+		c.compress(tail[off : off+64])
+	}
+	if c.rmd {
+		d := rmdOut(c.h5)
+		return d[:]
+	}
+	d := md4Out(c.h4)
+	return d[:]
+}
